@@ -104,37 +104,66 @@ def witness_cases(ctx, env, flags):
 
     def prog():
         return ctl_db.Program(3, [[(1, 0)], [(2, 0)], []], [True, False, False], [(0, 1)], ns="gcw")
+
+    def scenario(label, steps):
+        c = Case(env, prog(), flags, label, oracle)
+        out.append(c)
+        ctl_db.guarded(ctx, label, lambda: steps(c))
+        return c
+
     # count the writing commits of a clean run
-    c0 = Case(env, prog(), flags, "clean", oracle)
-    res, _, ncommits = c0.run(0)
-    c0.prog.edit(2)
-    c0.run(0)
-    out.append(c0)
-    ks = list(range(1, ncommits + 1))
+    info = {}
+
+    def clean(c):
+        res, _, info["n"] = c.run(0)
+        c.prog.edit(2)
+        c.run(0)
+    scenario("clean", clean)
+    ks = list(range(1, info.get("n", 0) + 1))
     if ctx.tier == "quick":
         ks = ks[-12:]           # the commits of the resolve phase (record_call_node / record_job_end) are last
     for k in ks:
-        c = Case(env, prog(), flags, f"crash@{k}", oracle)
-        c.disturb.append("crash")
-        c.run(0, crash_at=k)
-        c.run(0)                 # recovery, no edit
-        c.prog.edit(2)           # edit the grandchild
-        c.run(0)
-        out.append(c)
+        def crash(c, k=k):
+            c.disturb.append("crash")
+            c.run(0, crash_at=k)
+            c.run(0)                 # recovery, no edit
+            c.prog.edit(2)           # edit the grandchild
+            c.run(0)
+        scenario(f"crash@{k}", crash)
     for k in ks:
-        c = Case(env, prog(), flags, f"fault@{k}", oracle)
-        c.disturb.append("fault")
-        c.run(0, fault_k=k)
-        c.prog.edit(2)
+        def fault(c, k=k):
+            c.disturb.append("fault")
+            c.run(0, fault_k=k)
+            c.prog.edit(2)
+            c.run(0)
+        scenario(f"fault@{k}", fault)
+
+    def transfer(c):
         c.run(0)
-        out.append(c)
-    c = Case(env, prog(), flags, "transfer", oracle)
-    c.run(0)
-    c.transfer(0, 1)
-    c.prog.edit(2)
-    c.run(1)
-    c.run(0)
-    out.append(c)
+        c.transfer(0, 1)
+        c.prog.edit(2)
+        c.run(1)
+        c.run(0)
+    scenario("transfer", transfer)
+
+    # CSE twin, clean history; and CSE hit on a call node that was imported without subtree rows
+    def twin(c):
+        c.prog = ctl_db.TwinProgram()
+        c.run(0)
+        c.prog.edit(0)
+        c.run(0)
+    scenario("twin", twin)
+
+    def twin_import(c):
+        c.prog = ctl_db.TwinProgram(ns="gctx")
+        c.prog.mode = "f"
+        c.run(0)
+        c.transfer(0, 1)
+        c.prog.mode = "twin"
+        c.run(1)
+        c.prog.edit(0)
+        c.run(1)
+    scenario("twin-import", twin_import)
     return out
 
 
@@ -189,10 +218,12 @@ def run(ctx):
             ctx.expect_known(SIGS["cseSubtreeFromDb"][0], True, twin_case, SIGS["cseSubtreeFromDb"][1])
         cases = witness_cases(ctx, env, flags)
         for i in range(ctx.n(25, 300)):
-            cases.append(gen_case(ctx, env, flags, i))
+            c = ctl_db.guarded(ctx, f"gen{i}", lambda i=i: gen_case(ctx, env, flags, i))
+            if c is not None:
+                cases.append(c)
         # targeted edits: every task missing from a recorded subtree set is edited and the program re-run
         for c in cases:
-            targeted(ctx, c)
+            ctl_db.guarded(ctx, c.label + ":targeted", lambda c=c: targeted(ctx, c))
         # ---- model replay
         all_lines, spans = [], []
         for c in cases:
